@@ -518,8 +518,22 @@ def run_property(ctx):
         if spec.get('srcfun'):
             from . import srcfun
             funs = srcfun.run(ctx)
+        free = None
+        if spec.get('srcfree'):
+            from . import srcfree
+            free = srcfree.run(ctx)
         for s in spec['suites']:
             run_suite(ctx, s)
+        if free:
+            status, detail, info = free
+            ctx.suite_stats.append(dict(suite='S-srcfree', cases=0, distinct_nontrivial=0, mismatches=0, ops={}, samples=[],
+                                        rule='no inputs: var_is_free of src/parser.rs, translated, is proved equal to the model function for all formulas and variables', exhaustive=False, profile='-', source_function=info))
+            if status == 'obligation-failed' and not any(not no_input for _, no_input in ctx.violations):
+                ctx.violation({'kind': 'proof-obligation', 'key': 'srcfree:' + ctx.pid,
+                               'broken': 'src_var_is_free_ok: var_is_free as regenerated from src/parser.rs is no longer the model function',
+                               'detail': detail}, no_input=True)
+            elif status == 'shape-not-recognised':
+                ctx.notes.append('source function var_is_free: the translator does not recognise its shape any more (%s); the obligation was not re-derived in this run' % detail)
         if funs:
             status, detail, info = funs
             ctx.suite_stats.append(dict(suite='S-srcfun', cases=0, distinct_nontrivial=0, mismatches=0, ops={}, samples=[],
